@@ -217,6 +217,9 @@ class Engine:
             goal = z3.BoolVal(goal)
         d = st.decided(goal)
         if d is True:
+            ob = Obligation(label, kind, [], z3.BoolVal(True), getattr(node, "lineno", None))
+            ob.trivial = True
+            self.obligations.append(ob)
             return
         self.obligations.append(Obligation(label, kind, list(st.pc), goal, getattr(node, "lineno", None)))
         st.assume(goal)
@@ -267,19 +270,84 @@ class Engine:
     def parse_expr(self, s):
         return ast.parse(textwrap.dedent(s).strip(), mode="eval").body
 
+    def _free_terms(self, st, fdef, args):
+        """z3 terms of every free let/param the spec body mentions (used to
+        decide whether two instances of the same spec source denote the same
+        function)."""
+        names = []
+        for n in ast.walk(fdef):
+            if isinstance(n, ast.Name) and n.id not in args and n.id not in names:
+                names.append(n.id)
+        terms = []
+        done = set()
+        work = list(names)
+        while work:
+            n = work.pop()
+            if n in done:
+                continue
+            done.add(n)
+            if n in self.contract.spec:
+                continue
+            if n in self.contract.lets:
+                try:
+                    lv = self.deref(st, self.eval(st, self.parse_expr(self.contract.lets[n])))
+                except Unsupported:
+                    lv = None
+                if isinstance(lv, V):
+                    terms.extend(lv.c)
+                    continue
+                for m in ast.walk(self.parse_expr(self.contract.lets[n])):
+                    if isinstance(m, ast.Name):
+                        work.append(m.id)
+                continue
+            v = self.bound.get(n, st.vars.get(n))
+            if v is None:
+                continue
+            v = self.deref(st, v)
+            if isinstance(v, V):
+                terms.extend(v.c)
+            elif isinstance(v, Obj):
+                for fv in v.fields.values():
+                    fv = self.deref(st, fv)
+                    if isinstance(fv, V):
+                        terms.extend(fv.c)
+        return terms
+
     def setup_spec(self, st):
         """Declare spec functions; their defining axioms are closed over the
-        pre-state parameters."""
+        pre-state parameters.  An instance with identical source over
+        identical argument terms re-uses the existing function symbol (this is
+        how a caller and a callee share a spec function)."""
         c = self.contract
+        insts = self.__dict__.setdefault("spec_instances", [])
+        fresh_defs = []
         for name, src in c.spec.items():
             fdef = ast.parse(textwrap.dedent(src)).body[0]
             args = [a.arg for a in fdef.args.args]
-            sorts = [Ty.IntS] * len(args)
             ret = c.spec_types.get(name, Int)
-            f = z3.Function(f"spec!{name}", *sorts, ret.sorts()[0])
+            om = self.spec_mode
+            self.spec_mode = True
+            try:
+                free = self._free_terms(st, fdef, args)
+            finally:
+                self.spec_mode = om
+            norm = ast.dump(fdef)
+            found = None
+            for (n2, norm2, free2, f2) in insts:
+                if n2 == name and norm2 == norm and len(free2) == len(free) and all(a.eq(b) for a, b in zip(free, free2)):
+                    found = f2
+                    break
+            if found is not None:
+                self.specfns[name] = (found, args, ret, fdef)
+                continue
+            sorts = [Ty.IntS] * len(args)
+            f = z3.Function(f"spec!{name}!{len(insts)}", *sorts, ret.sorts()[0])
+            insts.append((name, norm, free, f))
             self.specfns[name] = (f, args, ret, fdef)
+            fresh_defs.append(name)
         # axioms after all are declared (mutual references allowed)
-        for name, (f, args, ret, fdef) in self.specfns.items():
+        for name in fresh_defs:
+            (f, args, ret, fdef) = self.specfns[name]
             zs = [z3.Int(f"{name}!{a}") for a in args]
             body = fdef.body
             # allow docstring
@@ -290,11 +358,12 @@ class Engine:
             old_bound = dict(self.bound)
             for a, zc in zip(args, zs):
                 self.bound[a] = V(Int, [zc])
+            om = self.spec_mode
             self.spec_mode = True
             try:
                 val = self.eval(st, body[0].value)
             finally:
-                self.spec_mode = False
+                self.spec_mode = om
                 self.bound = old_bound
             val = self.coerce(val, ret)
             ax = f(*zs) == val.term
@@ -317,6 +386,11 @@ class Engine:
     def coerce(self, v, t):
         if isinstance(v, Ref):
             raise Unsupported("coerce of reference")
+        if isinstance(v, PyConst):
+            if isinstance(v.val, float) and v.val == -float("inf") and isinstance(t, Ty.Opt):
+                # extended integers: -inf is the 'none' of Opt(Int)
+                return Ty.mk_opt_none(t.t)
+            raise Unsupported(f"python constant {v.val!r} flowing into {t}")
         if isinstance(t, Ty._Real) and isinstance(v.t, Ty._Int):
             return V(Real, [z3.ToReal(v.term)])
         if isinstance(t, Ty.Opt) and not isinstance(v.t, Ty.Opt):
@@ -324,6 +398,20 @@ class Engine:
                 return Ty.mk_opt_none(t.t)
             return Ty.mk_opt_some(self.coerce(v, t.t))
         return v
+
+    def narrow(self, st, v, t, node):
+        if isinstance(v, PyConst):
+            return self.coerce(v, t)
+        return self._narrow(st, v, t, node)
+
+    def _narrow(self, st, v, t, node):
+        """Store/flow of a value into a slot of declared type t.  An Optional
+        flowing into a non-optional slot generates the obligation 'is not
+        None' (the slot type is the contract's claim about the code)."""
+        if isinstance(v, V) and isinstance(v.t, Ty.Opt) and not isinstance(t, Ty.Opt):
+            self.oblige(st, z3.Not(v.c[0]), f"value is not None at line {self.line(node)}", "safety", node)
+            return self.coerce(V(v.t.t, v.c[1:]), t)
+        return self.coerce(v, t)
 
     def truth(self, st, v):
         """z3 Bool for the Python truth value of v."""
@@ -474,6 +562,8 @@ class Engine:
         if isinstance(node.op, ast.Not):
             return Ty.mk_bool(z3.Not(self.truth(st, v)))
         if isinstance(node.op, ast.USub):
+            if isinstance(v, PyConst) and isinstance(v.val, float):
+                return PyConst(-v.val)
             if isinstance(v.t, Ty._Real):
                 return V(Real, [-v.term])
             return V(Int, [-self.num(v)])
@@ -499,17 +589,20 @@ class Engine:
         if isinstance(op, ast.FloorDiv):
             if real:
                 raise Unsupported("real floor division")
-            self.oblige(st, y > 0, f"divisor positive at line {self.line(node)}", "safety", node)
+            if not self.spec_mode:
+                self.oblige(st, y > 0, f"divisor positive at line {self.line(node)}", "safety", node)
             return mk(x / y)  # z3 Int division is floor for positive divisors
         if isinstance(op, ast.Mod):
             if real:
                 raise Unsupported("real modulo")
-            self.oblige(st, y > 0, f"modulus positive at line {self.line(node)}", "safety", node)
+            if not self.spec_mode:
+                self.oblige(st, y > 0, f"modulus positive at line {self.line(node)}", "safety", node)
             return mk(x % y)
         if isinstance(op, ast.Div):
             xr = z3.ToReal(x) if x.sort() == Ty.IntS else x
             yr = z3.ToReal(y) if y.sort() == Ty.IntS else y
-            self.oblige(st, yr != 0, f"divisor non-zero at line {self.line(node)}", "safety", node)
+            if not self.spec_mode:
+                self.oblige(st, yr != 0, f"divisor non-zero at line {self.line(node)}", "safety", node)
             return V(Real, [xr / yr])
         if isinstance(op, ast.Pow):
             return self.power(st, a, b, x, y, real, node)
@@ -1056,18 +1149,18 @@ class Engine:
             if isinstance(t, Ty.List):
                 i = self.num(idx)
                 self.oblige(st, z3.And(0 <= i, i < bv.c[0]), f"list store index in range at line {self.line(tgt)}", "safety", tgt)
-                val = self.coerce(val, t.e)
+                val = self.narrow(st, val, t.e, tgt)
                 st.heap[base.id] = V(t, [bv.c[0]] + [z3.Store(a, i, c) for a, c in zip(bv.c[1:], val.c)])
                 return
             if isinstance(t, Ty.Map):
                 k = self.keyterm(idx)
-                val = self.coerce(val, t.v)
+                val = self.narrow(st, val, t.v, tgt)
                 st.heap[base.id] = V(t, [z3.Store(bv.c[0], k, True)] + [z3.Store(a, k, c) for a, c in zip(bv.c[1:], val.c)])
                 return
             if isinstance(t, Ty.ODict):
                 from . import calls
 
-                calls.odict_store(self, st, base, bv, self.keyterm(idx), self.coerce(val, t.v))
+                calls.odict_store(self, st, base, bv, self.keyterm(idx), self.narrow(st, val, t.v, tgt))
                 return
             raise Unsupported(f"subscript store on {t}")
         if isinstance(tgt, ast.Attribute):
@@ -1075,6 +1168,9 @@ class Engine:
             ob = self.deref(st, base)
             if not isinstance(ob, Obj):
                 raise Unsupported("attribute store on non-object")
+            decl = base.t.fields.get(tgt.attr) if isinstance(base.t, ObjT) else None
+            if decl is not None and not isinstance(val, Ref) and not isinstance(decl, ObjT) and not decl.mutable:
+                val = self.narrow(st, val, decl, tgt)
             if isinstance(val, V) and val.t.mutable:
                 val = self.alloc(st, val)
             ob2 = ob.clone()
